@@ -2,6 +2,8 @@ import ChessVerif.Props.C06
 import ChessVerif.Props.C06real
 import ChessVerif.Model.SearchReal
 import ChessVerif.Proofs.SearchRealGuardedEq
+import ChessVerif.Props.C06uci
+import ChessVerif.Proofs.SearchNmpFloor
 #print axioms ChessVerif.Props.C06.go_board_restored
 #print axioms ChessVerif.Props.C06.go_move_legal_or_null
 #print axioms ChessVerif.Props.C06.go_null_only_if_final_partial
@@ -46,3 +48,17 @@ import ChessVerif.Proofs.SearchRealGuardedEq
 #print axioms ChessVerif.Props.C06real.go_final_score_real
 #print axioms ChessVerif.Props.C06real.go_final_score_guarded
 #print axioms ChessVerif.SearchReal.realCompGuarded_eq
+#print axioms ChessVerif.Props.C06uci.uciGo_total
+#print axioms ChessVerif.Props.C06uci.uciGo_missing_iff
+#print axioms ChessVerif.Props.C06uci.uciGo_depth_in_range
+#print axioms ChessVerif.Props.C06uci.uciGo_limits_depth
+#print axioms ChessVerif.Props.C06uci.uciGo_nodes
+#print axioms ChessVerif.Props.C06uci.uciGo_softTime
+#print axioms ChessVerif.Props.C06uci.uciGo_flags
+#print axioms ChessVerif.Props.C06.go_nmpOut_of_floor
+#print axioms ChessVerif.Props.C06real.real_scoreLaws_guarded
+#print axioms ChessVerif.Props.C06real.real_aspLaws_guarded
+#print axioms ChessVerif.Props.C06real.real_nmp_unguarded
+#print axioms ChessVerif.Props.C06real.guarded_nmpFloor
+#print axioms ChessVerif.Props.C06real.go_nmpOut_guarded
+#print axioms ChessVerif.Props.C06real.nmpSane_flag
